@@ -21,6 +21,7 @@ use libcnb::{Buildpack, Env, Target};
 use serde::{Deserialize, Serialize};
 use serde_json::{Value, json};
 use std::cell::RefCell;
+use std::os::unix::ffi::OsStrExt;
 use std::os::unix::fs::PermissionsExt;
 use std::path::{Path, PathBuf};
 use std::str::FromStr;
@@ -70,7 +71,7 @@ pub fn context(layers_dir: &Path) -> BuildContext<TestBp> {
 }
 
 fn table_of(v: &Value) -> Option<toml::Table> {
-    if v.is_null() { None } else { Some(toml::from_str(&string_of(v)).expect("metadata toml")) }
+    if v.is_null() { None } else { Some(hash_order(toml::from_str(&string_of(v)).expect("metadata toml"))) }
 }
 
 fn sbom_format(i: u64) -> SbomFormat {
@@ -351,6 +352,16 @@ pub fn step(ctx: &BuildContext<TestBp>, layers: &Path, scratch: &Path, names: &[
                                 };
                                 let p = fsutil::path_of(&base, &w["rel"]);
                                 std::fs::create_dir_all(p.parent().unwrap()).and_then(|()| std::fs::write(&p, bytes_of(&w["data"]))).map_err(|e| json!({"err": "write_io", "text": e.to_string()}))
+                            }
+                            "link" => {
+                                let base = match lref {
+                                    Ref::Cached(r) => r.path(),
+                                    Ref::Uncached(r) => r.path(),
+                                };
+                                let p = fsutil::path_of(&base, &w["rel"]);
+                                std::fs::create_dir_all(p.parent().unwrap())
+                                    .and_then(|()| std::os::unix::fs::symlink(std::ffi::OsStr::from_bytes(&bytes_of(&w["target"])), &p))
+                                    .map_err(|e| json!({"err": "write_io", "text": e.to_string()}))
                             }
                             other => panic!("unknown write {other}"),
                         };
